@@ -254,7 +254,7 @@ func (h *harness) checkMarshal(w, other cpe.WFN) {
 	text, _ := w.MarshalText()
 	want := norm(w)
 	if verr == cpe.ErrUnset {
-		want = other // empty text leaves the receiver alone
+		want = other // Scan: the empty text leaves the receiver alone (documented)
 	}
 	expl := func(got cpe.WFN) string {
 		if verr == nil {
@@ -268,8 +268,12 @@ func (h *harness) checkMarshal(w, other cpe.WFN) {
 		if out == "panic" {
 			continue
 		}
-		if !ok || got != want {
-			r.Fail(expl(got), fmt.Sprintf("%s(%q) into %#v gives ok=%v %#v, want %#v", op, text, other, ok, got, want))
+		wantOp := want
+		if verr == cpe.ErrUnset && op == "unmarshal2" {
+			wantOp = cpe.WFN{} // UnmarshalText: the empty text is the unset name, whatever the receiver held (/repo 498444fa)
+		}
+		if !ok || got != wantOp {
+			r.Fail(expl(got), fmt.Sprintf("%s(%q) into %#v gives ok=%v %#v, want %#v", op, text, other, ok, got, wantOp))
 		}
 	}
 	// Scan of []byte and of an unsupported type
@@ -313,8 +317,9 @@ func (h *harness) checkMarshal(w, other cpe.WFN) {
 	if verr == cpe.ErrUnset {
 		wantP = cpe.WFN{}
 	}
-	if out.C != want || out.P == nil || *out.P != wantP {
-		r.Fail(expl(out.C), fmt.Sprintf("JSON round trip of %#v through %s gives %#v / %#v, want %#v", w, b, out.C, out.P, want))
+	// (JSON goes through UnmarshalText: the occupied field is reset by the empty text too)
+	if out.C != wantP || out.P == nil || *out.P != wantP {
+		r.Fail(expl(out.C), fmt.Sprintf("JSON round trip of %#v through %s gives %#v / %#v, want %#v", w, b, out.C, out.P, wantP))
 		return
 	}
 	r.Count("marshal:json-roundtrip")
